@@ -22,6 +22,8 @@ for (tag, k), c in sorted(conf.items()):
     dst = "/verif/seeded/%s-%s-%s" % (prop, tag[3:], k)
     os.makedirs(dst, exist_ok=True)
     for fn in ("patch.diff", "demo_test.go", "main.go"):
+        if fn == "patch.diff" and os.path.exists(dst + "/patch.orig.diff"):
+            continue  # ported to the final tree: keep the ported patch, the original is patch.orig.diff
         if os.path.exists(os.path.join(src, fn)):
             shutil.copy(os.path.join(src, fn), dst)
     try:
@@ -31,6 +33,8 @@ for (tag, k), c in sorted(conf.items()):
     old = {}
     if os.path.exists(dst + "/meta.json"):
         old = json.load(open(dst + "/meta.json"))
+    for keep in ("ported_to_final_tree", "obsolete_on_final_tree"):
+        if keep in old: meta[keep] = old[keep]
     meta["property"] = prop
     meta["produced_by"] = "independent sub-agent given only the property text and a scratch worktree (/tmp/s/%s)" % tag
     meta["confirmed_by_coordinator"] = "tools/confirm_seed.sh %s %s: demo passes on clean /repo main, patch applies and compiles, demo fails with the patch, full existing suite passes with the patch -> %s" % (tag, k, c)
